@@ -149,6 +149,10 @@ def main(argv=None):
                     break
                 except StopIteration:
                     break
+                except Exception as e:  # a shard's result could not be delivered (e.g. unpicklable sample): harness error, never a verdict
+                    total.error("shard result lost: %r" % (e,))
+                    done += 1
+                    continue
                 total.merge(col)
                 done += 1
         finally:
@@ -235,4 +239,12 @@ def main(argv=None):
 
 
 if __name__ == "__main__":
-    sys.exit(main())
+    try:
+        rc = main()
+    except SystemExit:
+        raise
+    except BaseException:  # noqa  - an escaping harness exception must never look like a verdict (exit 1)
+        traceback.print_exc()
+        print("HARNESS-ERROR uncaught exception in the runner")
+        rc = 2
+    sys.exit(rc)
